@@ -197,7 +197,9 @@ func (w *W) typ(t *meta.Type, depth int) interface{} {
 	out["bits"] = bits
 	var bases []interface{}
 	for _, b := range t.Base() {
-		bases = append(bases, M{"ident": b.Ident(), "closure": identityClosure(b)})
+		// the library's own lookup of a name nothing has (what converting an unknown identityref value does)
+		unknown := meta.FindIdentity([]*meta.Identity{b}, "verif-no-such-identity") != nil
+		bases = append(bases, M{"ident": b.Ident(), "closure": identityClosure(b), "finds-unknown": unknown})
 	}
 	out["base"] = bases
 	var union []interface{}
